@@ -748,7 +748,11 @@ META = {
                   'every function is integrated with its own level\'s quadrature), coo_merge_sums_duplicates (COO->CSR returns the sum of '
                   'all triplets at (i,j)), insert_block_entries, fancy_index_rows / fancy_index_columns (numpy semantics of M[idx], M[:,idx]), '
                   'sm_mul_entry and sm_transpose_entry (entry semantics of the sparse product and transpose, via axpy_spec for sorted sparse vectors), '
-                  'window_sufficient_old_refuted. PARTIAL: hassemble_entry_reachable_partial (the same as hassemble_entry_partial for every '
+                  'kron2_entry (entry (i1*nB+i2, j1*mB+j2) of the sparse Kronecker product), interlevel_in_index_box, '
+                  'window_sufficient_old_refuted. PARTIAL: hassemble_entry_pattern_partial (for every REACHABLE space and every prolongator data whose '
+                  'stored 1-D sparsity pattern lies inside the children pattern of C04/Children.v, every local family of level forms: the blocks equal '
+                  'the form applied to the two basis functions on the finer level; P_local and the shape condition are discharged from C04 '
+                  'children_inside_parent_support; remaining hypotheses: locality and pattern_ok), hassemble_entry_reachable_partial (the same as hassemble_entry_partial for every '
                   'REACHABLE space run (hs_init axes disp) ops: the C04 invariants mesh_ok / dimensions / active functions are functions are '
                   'discharged from tables_consistent and activity_characterisation; remaining hypotheses: locality, P_local, prolongator shape), '
                   'hassemble_entry_partial (for the CONCRETE neighbors / interlevel_ix / '
@@ -758,7 +762,7 @@ META = {
                   'index-box facts; the support-pattern lemma for products of Kronecker matrices is proved), '
                   'hassemble_entry_lower_partial / hassemble_entry_upper_partial (the abstract-set versions). NOT PROVED: that the Kronecker '
                   'product, the represent_fine loop and the chaining of the kernels through level_blocks evaluate the entry form '
-                  '(compared exactly per history on sampled entries and with the implementation); P_local for the exact Boehm matrices. '
+                  '(compared exactly per history on sampled entries and with the implementation); pattern_ok for the exact Boehm matrices of C05. '
                   'Tie: per history the model is run inside Coq on the implementation\'s own level matrices/vectors/prolongators (exact '
                   'dyadic arithmetic): rows and bounding boxes passed to _assemble_level and cell_supp_indices exact; HB/THB matrices '
                   '(general and symmetric), load vectors, thb_to_hb within |x - v| <= 2^-38 * sum|terms|. Oracle on the implementation: entry '
